@@ -71,6 +71,33 @@ func GetEDE(msg *dns.Msg) *dns.EDNS0_EDE {
 	return nil
 }
 
+// IsDNSSECFailure reports whether msg is a SERVFAIL whose extended error
+// says the validator rejected the data (RFC 8914 codes 1, 2, 5-12), as
+// opposed to the data being unobtainable.
+func IsDNSSECFailure(msg *dns.Msg) bool {
+	if msg == nil || msg.Rcode != dns.RcodeServerFailure {
+		return false
+	}
+	ede := GetEDE(msg)
+	if ede == nil {
+		return false
+	}
+	switch ede.InfoCode {
+	case dns.ExtendedErrorCodeUnsupportedDNSKEYAlgorithm,
+		dns.ExtendedErrorCodeUnsupportedDSDigestType,
+		dns.ExtendedErrorCodeDNSSECIndeterminate,
+		dns.ExtendedErrorCodeDNSBogus,
+		dns.ExtendedErrorCodeSignatureExpired,
+		dns.ExtendedErrorCodeSignatureNotYetValid,
+		dns.ExtendedErrorCodeDNSKEYMissing,
+		dns.ExtendedErrorCodeRRSIGsMissing,
+		dns.ExtendedErrorCodeNoZoneKeyBitSet,
+		dns.ExtendedErrorCodeNSECMissing:
+		return true
+	}
+	return false
+}
+
 // SetRcodeWithEDE returns message with specified rcode and Extended DNS Error.
 func SetRcodeWithEDE(req *dns.Msg, rcode int, do bool, edeCode uint16, extraText string) *dns.Msg {
 	m := SetRcode(req, rcode, do)
@@ -108,6 +135,16 @@ func ErrorToEDE(err error) (uint16, string) {
 	var ve validationError
 	if errors.As(err, &ve) {
 		return ve.EDECode(), ve.Error()
+	}
+
+	// The signature primitives report failures with the dns package's
+	// sentinels. They are validation verdicts, and a consumer that must
+	// tell a verdict from an outage (failover) reads the code.
+	switch {
+	case errors.Is(err, dns.ErrAlg), errors.Is(err, dns.ErrKeyAlg):
+		return dns.ExtendedErrorCodeUnsupportedDNSKEYAlgorithm, err.Error()
+	case errors.Is(err, dns.ErrSig), errors.Is(err, dns.ErrKey), errors.Is(err, dns.ErrRRset):
+		return dns.ExtendedErrorCodeDNSBogus, err.Error()
 	}
 
 	// Handle common Go errors
